@@ -25,10 +25,14 @@ Record state := mkState {
   atoms : list val;           (* concurrent.Atom objects, id = index *)
   trace : list val;           (* arguments of the harness builtin trace!, most recent first *)
   dbg : option dbgst;         (* debugger state, None when no Stepper is installed *)
+  cancelled : bool;           (* the context given to EVAL has been cancelled / its deadline has passed *)
 }.
 
 Definition set_dbg (st : state) (g : option dbgst) : state :=
-  mkState (heap st) (next_env st) (nframes st) (atoms st) (trace st) g.
+  mkState (heap st) (next_env st) (nframes st) (atoms st) (trace st) g (cancelled st).
+
+Definition set_cancelled (st : state) : state :=
+  mkState (heap st) (next_env st) (nframes st) (atoms st) (trace st) (dbg st) true.
 
 (** state-and-outcome monad: on an error the state changes made so far persist, as in Go *)
 Definition M (A : Type) := state -> outcome A * state.
@@ -47,7 +51,7 @@ Notation "'let+' x ':=' c1 'in' c2" := (bindM c1 (fun x => c2))
 
 Definition get_frame (st : state) (id : positive) : option frame := PositiveMap.find id (heap st).
 Definition put_frame (st : state) (id : positive) (f : frame) : state :=
-  mkState (PositiveMap.add id f (heap st)) (next_env st) (nframes st) (atoms st) (trace st) (dbg st).
+  mkState (PositiveMap.add id f (heap st)) (next_env st) (nframes st) (atoms st) (trace st) (dbg st) (cancelled st).
 
 Fixpoint update_nth {A} (l : list A) (n : nat) (f : A -> A) : list A :=
   match l, n with
@@ -124,7 +128,7 @@ Definition env_set (env : positive) (key : str) (v : val) : M val :=
 Definition new_env (outer_id : option positive) : M positive :=
   fun st => (Ok (next_env st),
              mkState (PositiveMap.add (next_env st) (mkFrame [] outer_id) (heap st))
-                     (Pos.succ (next_env st)) (S (nframes st)) (atoms st) (trace st) (dbg st)).
+                     (Pos.succ (next_env st)) (S (nframes st)) (atoms st) (trace st) (dbg st) (cancelled st)).
 
 (** env._newSubordinateEnvWithBinds (after fix: non-symbol binds and a dangling & are errors).
     The new scope is allocated first (as in Go) even when binding then fails. *)
@@ -166,14 +170,14 @@ Definition new_env_binds (outer_id : positive) (binds_mt exprs_mt : val) : M pos
 
 (** atoms *)
 Definition new_atom (v : val) : M val :=
-  fun st => (Ok (VAtom (length (atoms st))), mkState (heap st) (next_env st) (nframes st) (atoms st ++ [v]) (trace st) (dbg st)).
+  fun st => (Ok (VAtom (length (atoms st))), mkState (heap st) (next_env st) (nframes st) (atoms st ++ [v]) (trace st) (dbg st) (cancelled st)).
 Definition atom_get (id : nat) : M val :=
   fun st => match nth_opt (atoms st) id with
             | Some v => (Ok v, st)
             | None => (Panic (s_ "nil atom"), st)
             end.
 Definition atom_set (id : nat) (v : val) : M unit :=
-  fun st => (Ok tt, mkState (heap st) (next_env st) (nframes st) (update_nth (atoms st) id (fun _ => v)) (trace st) (dbg st)).
+  fun st => (Ok tt, mkState (heap st) (next_env st) (nframes st) (update_nth (atoms st) id (fun _ => v)) (trace st) (dbg st) (cancelled st)).
 
 Definition trace_push (v : val) : M unit :=
-  fun st => (Ok tt, mkState (heap st) (next_env st) (nframes st) (atoms st) (v :: trace st) (dbg st)).
+  fun st => (Ok tt, mkState (heap st) (next_env st) (nframes st) (atoms st) (v :: trace st) (dbg st) (cancelled st)).
